@@ -22,7 +22,7 @@ def check_curvature(H, name, pts):
     got = int(curvature.knee(pts.copy()))
     inner = crit[1:-1]
     want = 1 + first_arg(list(inner), inner.max())
-    H.case((name, "curvature"))
+    H.case((name, "curvature"), sample={"curve": name, "detector": "curvature", "n": len(pts)})
     if got != want or not (1 <= got <= len(pts) - 2):
         H.violation("curvature.knee on %s = %d, interior maximiser of |f''|/(1+f'^2)^1.5 is %d" % (name, got, want), {"curve": name, "points": pts, "detector": "curvature"}, clause="curvature")
 
@@ -35,7 +35,7 @@ def check_dfdt(H, name, pts):
         t = thresh.isodata(gr)
         d = np.abs(gr - t)[1:-1]
         return 1 + first_arg(list(d), d.min())
-    H.case((name, "dfdt"))
+    H.case((name, "dfdt"), sample={"curve": name, "detector": "dfdt", "n": len(pts)})
     try:
         got = int(guarded(dfdt.knee, pts.copy(), limit=30))
     except Timeout:
